@@ -26,6 +26,7 @@
   whole records (interleaving of classes in the file), the content of CDS / domain / module qualifiers.
 -/
 import ASV.Proofs.SerialRecord
+import ASV.Proofs.SerialPre
 namespace ASV.C10
 open ASV ASV.Serial
 
@@ -234,5 +235,49 @@ theorem kf_witness_not_in_scope : ¬ rKF.Scope := by
   have h1 := (List.pairwise_cons.1 hs).1 (mkCand (.simple ⟨0, 300, .fwd⟩) "interleaved" [0, 1, 2] (some 300)) (by simp [rKF])
   revert h1
   decide
+
+/-! ### the location of a precursor peptide (written as leader / core / tail, rebuilt from them) -/
+
+/-- `Prepeptide.to_biopython` cuts the gene's location into leader, core and tail (C09's
+    `prepeptideSections`), writes the core's location and the other two as text;
+    `Prepeptide.from_biopython` parses them and combines the three (`_combine_sections`, fixes/D107).
+    For every gene location (any number of exons, either strand, origin-spanning or not) and every
+    leader / tail length that leaves a core: writing succeeds, reading succeeds, and the rebuilt
+    location has exactly the gene's translated bases, in transcription order. -/
+theorem prepeptide_location_roundtrip (l : Loc) (hwf : ProtDna.geneWF l = true) (ld tl : Nat)
+    (h : (ld : Int) + tl < l.len / 3) :
+    ∃ w, preWrite l ld tl = .ok w ∧ ∃ r, preRead w = some r ∧
+      ProtDna.bases r = (ProtDna.bases l).take (3 * (l.len / 3).toNat) :=
+  preRead_preWrite l hwf ld tl h
+
+/-- comparing locations "whatever the cut into parts" loses no base: the normal form used by the
+    harness for the known finding KF-C10-prepeptide-location-parts has the same bases in the same order -/
+theorem merge_adjoining_same_bases (l : Loc) (hv : ∀ p ∈ l.parts, p.lo ≤ p.hi) :
+    ProtDna.bases (mergeAdjoining l) = ProtDna.bases l :=
+  mergeAdjoining_bases l hv
+
+/-- an origin-spanning gene on a circular record of 120 bases -/
+def spanGene : Loc := .compound [⟨105, 120, .fwd⟩, ⟨0, 15, .fwd⟩]
+def spanGeneRev : Loc := .compound [⟨0, 15, .rev⟩, ⟨105, 120, .rev⟩]
+
+example : ProtDna.geneWF spanGene = true ∧ ProtDna.geneWF spanGeneRev = true := by decide
+/-- non-vacuity, and more than the theorem says: here the location itself comes back, on both strands -/
+example : (match preWrite spanGene 3 3 with | .ok w => preRead w | _ => none) = some spanGene := by rfl
+example : (match preWrite spanGeneRev 2 4 with | .ok w => preRead w | _ => none) = some spanGeneRev := by rfl
+example : (match preWrite (.simple ⟨30, 60, .rev⟩) 3 3 with | .ok w => preRead w | _ => none)
+    = some (.simple ⟨30, 60, .rev⟩) := by rfl
+
+/-- the seeded change "combine the sections in coordinate order" is refuted by the theorem: for the
+    origin-spanning gene the section after the origin sorts first and the bases come out in another order -/
+theorem sections_in_coordinate_order_break_it :
+    ProtDna.bases (combineSections [.simple ⟨6, 15, .fwd⟩, .simple ⟨105, 114, .fwd⟩,
+                                    .compound [⟨114, 120, .fwd⟩, ⟨0, 6, .fwd⟩]])
+      ≠ ProtDna.bases spanGene ∧
+    ProtDna.bases (combineSections [.simple ⟨105, 114, .fwd⟩, .compound [⟨114, 120, .fwd⟩, ⟨0, 6, .fwd⟩],
+                                    .simple ⟨6, 15, .fwd⟩])
+      = ProtDna.bases spanGene := by
+  constructor
+  · decide
+  · decide
 
 end ASV.C10
